@@ -60,7 +60,7 @@ ASSUMPTIONS = {p: ["reference model of DESIGN.md 3.2 (sm_model.py) is a faithful
                for p in ("C01", "C02", "C03", "C04")}
 ASSUMPTIONS["C13"] = ["twin = plain StateMachine with identical states, engaged before every iteration at the same clock values"]
 
-NAMES = ["sa", "sb", "sc", "sd", "se", "sf"]
+NAMES = ["sa", "sb", "sc", "sd", "se", "sf"] + [f"t{i:02d}" for i in range(34)]
 PARAMS = ("tm", "state_tm", "initial_call")
 SUBSETS = [list(p) for r in range(4) for p in itertools.permutations(PARAMS, r)]  # 16 ordered subsets
 
@@ -80,7 +80,7 @@ def shards(pid, tier, seed):
 # ----------------------------------------------------------------------------- generator
 def gen_case(rng: random.Random, pid: str, uid: str) -> dict:
     auto = pid == "C13"
-    n = rng.choice([1, 2, 2, 3, 3, 3, 4, 4, 5, 6])
+    n = rng.choice([1, 2, 2, 3, 3, 3, 4, 4, 5, 6]) if rng.random() > 0.004 else rng.choice([34, 40])      # (rarely: a big machine)
     names = NAMES[:n]
     grid = rng.random() < (0.45 if pid == "C02" else 0.3)
     if grid:
@@ -105,7 +105,7 @@ def gen_case(rng: random.Random, pid: str, uid: str) -> dict:
             return period * rng.randrange(1, 9)       # whole periods: lands exactly
         if r < 0.9:
             return rng.randrange(period, 12 * period)
-        return rng.choice([1000000, 500000, 250000])
+        return rng.choice([1000000, 500000, 250000]) if rng.random() > 0.05 else rng.choice([3 * 10 ** 9, 61 * 10 ** 6])   # (rarely: many minutes)
 
     first = 0 if rng.random() < 0.8 else rng.randrange(n)
     states = []
@@ -875,7 +875,7 @@ class Driver:
         names = [n for n, s in self.eff.items() if s["kind"] != "default"]
         timed = [n for n, s in self.eff.items() if s["kind"] == "timed"]
         pid = self.pid
-        total = rng.choice([30, 60, 120, 250]) if rng.random() > 0.004 else 3000
+        total = rng.choice([30, 60, 120, 250, 400]) if rng.random() > 0.004 else 3000
         late = rng.random() < 0.3
         if late:
             self.ev("clock-moves-between-engage-and-execute")
@@ -911,9 +911,9 @@ class Driver:
                     mm = self.model.members[0]
                     if mm.running and mm.cur is not None and mm.cur.has_run and mm.cur.d is not None:
                         exp_abs = mm.origin + mm.cur.s + mm.cur.d
-                        delta = 0 if grid else rng.choice([0, 0, 0, -1, 1])
+                        delta = 0 if grid else rng.choice([0, 0, 0, -1, 1, 2, 3, -2])
                         a = exp_abs + delta - self.now_us()
-                        if a >= 0 and a <= 40 * period and (not grid or a % GRID == 0):
+                        if a >= 0 and (a <= 40 * period or mm.cur.d >= 6 * 10 ** 7) and (not grid or a % GRID == 0):
                             adv = a
                             self.ev("landing-step")
                 # the calls of this iteration come right before execute() (a component that runs before the machine), or - in
@@ -946,6 +946,8 @@ class Driver:
                     pre.append(["engage", init, force, as_obj])
                     if rng.random() < 0.05:
                         pre.append(["engage", None, False, False])
+                    if rng.random() < 0.002:
+                        pre += [["engage", None, False, False]] * 60        # many callers ask for the machine in one iteration
                 r = rng.random()
                 p_stop = 0.06 if pid == "C04" else 0.02
                 if r < p_stop:
@@ -1330,7 +1332,7 @@ class AutoDriver:
                     mm = self.guide.members[0]
                     if mm.running and mm.cur is not None and mm.cur.has_run and mm.cur.d is not None:
                         a_ = mm.origin + mm.cur.s + mm.cur.d + (0 if grid else rng.choice([0, 0, -1, 1])) - self.now_us()
-                        if 0 <= a_ <= 40 * period and (not grid or a_ % GRID == 0):
+                        if 0 <= a_ and (a_ <= 40 * period or mm.cur.d >= 6 * 10 ** 7) and (not grid or a_ % GRID == 0):
                             adv = a_
                             self.ev("landing-step")
                 if not do(["adv", adv]):
